@@ -1,8 +1,9 @@
 /-
   C11 — helper lemmas for Props.lean: semantics of the searches (`findIndex`, `lower_bound`), the
   affine pieces of the linear interpolation, the local cubic (Hermite conditions, formal
-  derivatives), the Thomas algorithm invariant, the natural-spline equations, and the primitive
-  of the extrapolated spline used to characterise `computeIntegral`.
+  derivatives), the Thomas algorithm invariant, the loop invariant of `buildInterpolation`, the
+  natural-spline equations, positivity of the pivots, and the primitive of the extrapolated spline
+  used to characterise `computeIntegral`.
 -/
 import Mathlib.Algebra.Order.Field.Basic
 import Mathlib.Tactic.Ring
@@ -14,6 +15,8 @@ import TfelVerif.C11.Model
 
 set_option linter.unusedSectionVars false
 set_option linter.unusedVariables false
+set_option linter.unusedTactic false
+set_option linter.unreachableTactic false
 
 namespace TfelVerif.C11
 
@@ -489,6 +492,84 @@ theorem thomas_solves {prec : K} (hprec : 0 < prec) (c b r : Vec K) {n : Nat} (h
   intro i hi
   exact ne_zero_of_not_absT_lt hprec (pivotsOk_spec prec _ n hp i hi)
 
+/-! ### the system assembled by `buildInterpolation` -/
+
+/-- `hn` of iteration `i` : inverse of the length of the interval `i` -/
+def hInv (x : Vec K) (i : Nat) : K := 1 / (x.get (i + 1) - x.get i)
+
+/-- `un` of iteration `i` -/
+def uTerm (x y : Vec K) (i : Nat) : K := 3 * hInv x i * hInv x i * (y.get (i + 1) - y.get i)
+
+/-- `upper_diagonal` after the loop (also the lower diagonal : the matrix is symmetric) -/
+def upperDiag (x : Vec K) (s : Nat) : Vec K := { get := fun i => if i < s then hInv x i else 0 }
+
+/-- `main_diagonal` after the loop and the assignment `md[s] = 2 * ho` -/
+def mainDiag (x : Vec K) (s : Nat) : Vec K :=
+  { get := fun i =>
+      if i = s then 2 * hInv x (s - 1)
+      else if i < s then (if i = 0 then 2 * (hInv x 0 + 0) else 2 * (hInv x i + hInv x (i - 1)))
+      else 0 }
+
+/-- right-hand side (stored in `points[i].d`) after the loop and `points[s].d = uo` -/
+def rhsVec (x y : Vec K) (s : Nat) : Vec K :=
+  { get := fun i =>
+      if i = s then uTerm x y (s - 1)
+      else if i < s then (if i = 0 then uTerm x y 0 + 0 else uTerm x y i + uTerm x y (i - 1))
+      else 0 }
+
+/-- loop invariant of `buildInterpolation` : the state after `k` iterations -/
+def asmInv (x y : Vec K) (k : Nat) : Assembly K :=
+  { mu := { get := fun j => if j < k then hInv x j else 0 },
+    md := { get := fun j =>
+      if j < k then (if j = 0 then 2 * (hInv x 0 + 0) else 2 * (hInv x j + hInv x (j - 1))) else 0 },
+    d := { get := fun j =>
+      if j < k then (if j = 0 then uTerm x y 0 + 0 else uTerm x y j + uTerm x y (j - 1)) else 0 },
+    ho := if k = 0 then 0 else hInv x (k - 1),
+    uo := if k = 0 then 0 else uTerm x y (k - 1) }
+
+theorem assemble_loop (x y : Vec K) :
+    ∀ k, forRange 0 k (assembleStep x y)
+        { mu := { get := fun _ => 0 }, md := { get := fun _ => 0 }, d := { get := fun _ => 0 },
+          ho := 0, uo := 0 } = asmInv x y k := by
+  intro k
+  induction k with
+  | zero => simp [forRange, asmInv]
+  | succ k ih =>
+    rw [forRange, ih, Nat.zero_add]
+    unfold assembleStep asmInv
+    simp only [Assembly.mk.injEq]
+    refine ⟨?_, ?_, ?_, ?_, ?_⟩
+    · apply Vec.ext'
+      intro j
+      simp only [Vec.set]
+      split_ifs <;> first | omega | rfl | (subst_vars; rfl)
+    · apply Vec.ext'
+      intro j
+      simp only [Vec.set]
+      split_ifs <;> first | omega | rfl | (subst_vars; simp [hInv])
+    · apply Vec.ext'
+      intro j
+      simp only [Vec.set]
+      split_ifs <;> first | omega | rfl | (subst_vars; simp [uTerm, hInv]) | (subst_vars; rfl)
+    · simp [hInv]
+    · simp [uTerm, hInv]
+
+/-- the loop of `buildInterpolation` produces the diagonals and the right-hand side `upperDiag`,
+`mainDiag`, `rhsVec` -/
+theorem assemble_eq (x y : Vec K) {s : Nat} (hs : 1 ≤ s) :
+    (assemble x y s).mu = upperDiag x s ∧ (assemble x y s).md = mainDiag x s ∧
+      (assemble x y s).d = rhsVec x y s := by
+  unfold assemble
+  simp only [assemble_loop]
+  have h0 : s ≠ 0 := by omega
+  refine ⟨rfl, ?_, ?_⟩
+  · apply Vec.ext'
+    intro j
+    simp only [Vec.set, asmInv, mainDiag, if_neg h0]
+  · apply Vec.ext'
+    intro j
+    simp only [Vec.set, asmInv, rhsVec, if_neg h0]
+
 /-! ### natural cubic spline equations -/
 
 /-- the natural-spline conditions on the slopes `d` : zero second derivative at both ends and
@@ -527,18 +608,19 @@ theorem pieceD2_right_eq (x y d : Vec K) (i : Nat) (h : (x.get (i + 1) - x.get i
 /-- the rows of the system assembled by `buildInterpolation` are exactly the natural-spline
 conditions -/
 theorem natural_iff_system {x y : Vec K} {n : Nat} (hx : StrictInc x n) (hn : 2 ≤ n) (d : Vec K) :
-    TriSystem (upperDiag x) (mainDiag x (n - 1)) (rhsVec x y (n - 1)) n d ↔ NaturalC2 x y d n := by
+    TriSystem (upperDiag x (n - 1)) (mainDiag x (n - 1)) (rhsVec x y (n - 1)) n d ↔ NaturalC2 x y d n := by
   unfold TriSystem NaturalC2
   have hne : ∀ i, i + 1 < n → hInv x i ≠ 0 := by
     intro i hi h0
     have := hInv_mul hx hi
     rw [h0, mul_zero] at this
     exact zero_ne_one this
-  have r0 : (mainDiag x (n - 1)).get 0 * d.get 0 + (upperDiag x).get 0 * d.get 1 = (rhsVec x y (n - 1)).get 0 ↔
+  have r0 : (mainDiag x (n - 1)).get 0 * d.get 0 + (upperDiag x (n - 1)).get 0 * d.get 1 = (rhsVec x y (n - 1)).get 0 ↔
       pieceD2 x y d 0 0 = 0 := by
     rw [pieceD2_left_eq]
     have h1 : (0 : Nat) ≠ n - 1 := by omega
-    simp only [mainDiag, rhsVec, upperDiag, uTerm, if_neg h1, if_true]
+    have h5 : (0 : Nat) < n - 1 := by omega
+    simp only [mainDiag, rhsVec, upperDiag, uTerm, if_neg h1, if_pos h5, if_true]
     have := hne 0 (by omega)
     constructor
     · intro h
@@ -546,8 +628,8 @@ theorem natural_iff_system {x y : Vec K} {n : Nat} (hx : StrictInc x n) (hn : 2 
     · intro h
       linear_combination (-1 / 2 : K) * h
   have ri : ∀ i, 1 ≤ i → i + 1 < n →
-      ((upperDiag x).get (i - 1) * d.get (i - 1) + (mainDiag x (n - 1)).get i * d.get i +
-          (upperDiag x).get i * d.get (i + 1) = (rhsVec x y (n - 1)).get i ↔
+      ((upperDiag x (n - 1)).get (i - 1) * d.get (i - 1) + (mainDiag x (n - 1)).get i * d.get i +
+          (upperDiag x (n - 1)).get i * d.get (i + 1) = (rhsVec x y (n - 1)).get i ↔
        pieceD2 x y d (i - 1) (x.get i - x.get (i - 1)) = pieceD2 x y d i 0) := by
     intro i h1 h2
     obtain ⟨j, rfl⟩ : ∃ j, i = j + 1 := ⟨i - 1, by omega⟩
@@ -555,19 +637,23 @@ theorem natural_iff_system {x y : Vec K} {n : Nat} (hx : StrictInc x n) (hn : 2 
     rw [pieceD2_left_eq, pieceD2_right_eq x y d j (hInv_mul hx (by omega))]
     have h3 : j + 1 ≠ n - 1 := by omega
     have h4 : j + 1 ≠ 0 := by omega
-    simp only [mainDiag, rhsVec, upperDiag, uTerm, if_neg h3, if_neg h4, Nat.add_sub_cancel]
+    have h5 : j < n - 1 := by omega
+    have h6 : j + 1 < n - 1 := by omega
+    simp only [mainDiag, rhsVec, upperDiag, uTerm, if_neg h3, if_neg h4, if_pos h5, if_pos h6,
+      Nat.add_sub_cancel]
     constructor
     · intro h
       linear_combination (2 : K) * h
     · intro h
       linear_combination (1 / 2 : K) * h
-  have rl : (upperDiag x).get (n - 2) * d.get (n - 2) + (mainDiag x (n - 1)).get (n - 1) * d.get (n - 1) =
+  have rl : (upperDiag x (n - 1)).get (n - 2) * d.get (n - 2) + (mainDiag x (n - 1)).get (n - 1) * d.get (n - 1) =
         (rhsVec x y (n - 1)).get (n - 1) ↔
       pieceD2 x y d (n - 2) (x.get (n - 1) - x.get (n - 2)) = 0 := by
     obtain ⟨j, rfl⟩ : ∃ j, n = j + 2 := ⟨n - 2, by omega⟩
     simp only [Nat.add_sub_cancel, show j + 2 - 1 = j + 1 by omega]
     rw [pieceD2_right_eq x y d j (hInv_mul hx (by omega))]
-    simp only [mainDiag, rhsVec, upperDiag, uTerm, if_true, Nat.add_sub_cancel]
+    simp only [mainDiag, rhsVec, upperDiag, uTerm, if_true, Nat.add_sub_cancel,
+      if_pos (Nat.lt_succ_self j)]
     constructor
     · intro h
       linear_combination (2 : K) * h
@@ -610,36 +696,39 @@ theorem elim_le {h p : K} (hh : 0 < h) (hp : 2 * h ≤ p) : h / p * h ≤ h / 2 
 
 theorem pivot_lower {x y : Vec K} {n : Nat} (hx : StrictInc x n) :
     ∀ i, i + 1 < n →
-      2 * hInv x i ≤ (fwd (upperDiag x) (mainDiag x (n - 1)) (rhsVec x y (n - 1)) i).1 := by
+      2 * hInv x i ≤ (fwd (upperDiag x (n - 1)) (mainDiag x (n - 1)) (rhsVec x y (n - 1)) i).1 := by
   intro i
   induction i with
   | zero =>
     intro hi
     have h1 : (0 : Nat) ≠ n - 1 := by omega
-    simp only [fwd, mainDiag, if_neg h1, if_true]
+    have h5 : (0 : Nat) < n - 1 := by omega
+    simp only [fwd, mainDiag, if_neg h1, if_pos h5, if_true]
     linarith
   | succ i ih =>
     intro hi
     have h := ih (by omega)
     rw [fwd_succ]
-    generalize (fwd (upperDiag x) (mainDiag x (n - 1)) (rhsVec x y (n - 1)) i).1 = p at *
+    generalize (fwd (upperDiag x (n - 1)) (mainDiag x (n - 1)) (rhsVec x y (n - 1)) i).1 = p at *
     have h3 : i + 1 ≠ n - 1 := by omega
     have h4 : i + 1 ≠ 0 := by omega
-    simp only [mainDiag, upperDiag, if_neg h3, if_neg h4, Nat.add_sub_cancel]
+    have h5 : i < n - 1 := by omega
+    have h6 : i + 1 < n - 1 := by omega
+    simp only [mainDiag, upperDiag, if_neg h3, if_neg h4, if_pos h5, if_pos h6, Nat.add_sub_cancel]
     have hh := hInv_pos hx (by omega : i + 1 < n)
     have := elim_le hh h
     linarith
 
 theorem pivot_last {x y : Vec K} {n : Nat} (hx : StrictInc x n) (hn : 2 ≤ n) :
     3 / 2 * hInv x (n - 2) ≤
-      (fwd (upperDiag x) (mainDiag x (n - 1)) (rhsVec x y (n - 1)) (n - 1)).1 := by
+      (fwd (upperDiag x (n - 1)) (mainDiag x (n - 1)) (rhsVec x y (n - 1)) (n - 1)).1 := by
   obtain ⟨j, rfl⟩ : ∃ j, n = j + 2 := ⟨n - 2, by omega⟩
   simp only [Nat.add_sub_cancel, show j + 2 - 1 = j + 1 by omega]
   have h := pivot_lower (y := y) hx j (by omega)
   simp only [show j + 2 - 1 = j + 1 by omega] at h
   rw [fwd_succ]
-  generalize (fwd (upperDiag x) (mainDiag x (j + 1)) (rhsVec x y (j + 1)) j).1 = p at *
-  simp only [mainDiag, upperDiag, if_true, Nat.add_sub_cancel]
+  generalize (fwd (upperDiag x (j + 1)) (mainDiag x (j + 1)) (rhsVec x y (j + 1)) j).1 = p at *
+  simp only [mainDiag, upperDiag, if_true, Nat.add_sub_cancel, if_pos (Nat.lt_succ_self j)]
   have hh := hInv_pos hx (by omega : j + 1 < j + 2)
   have := elim_le hh h
   linarith
@@ -682,7 +771,8 @@ theorem build_ok {prec : K} (hprec : 0 < prec) {x y : Vec K} {n : Nat} {d : Vec 
       rwa [Nat.sub_add_cancel (Nat.pos_of_ne_zero h0)] at this
     have hn : 2 ≤ n := by omega
     refine ⟨h0, ho, fun h => absurd h h2, fun _ => ?_⟩
-    simp only [Vec.tab_eq] at h
+    obtain ⟨e1, e2, e3⟩ := assemble_eq x y (show 1 ≤ n - 1 by omega)
+    simp only [Vec.tab_eq, e1, e2, e3] at h
     split at h
     · cases h
     · rename_i s heq
@@ -703,7 +793,9 @@ theorem build_total {prec : K} {x y : Vec K} {n : Nat} (hx : StrictInc x n) (hn 
   · rw [if_pos h1]; exact ⟨_, rfl⟩
   · rw [if_neg h1]
     have hn2 : 2 ≤ n := by omega
-    have hp : pivotsOk prec (Vec.mk (fwd (upperDiag x) (mainDiag x (n - 1)) (rhsVec x y (n - 1))) ()) n = true := by
+    obtain ⟨e1, e2, e3⟩ := assemble_eq x y (show 1 ≤ n - 1 by omega)
+    simp only [e1, e2, e3]
+    have hp : pivotsOk prec (Vec.mk (fwd (upperDiag x (n - 1)) (mainDiag x (n - 1)) (rhsVec x y (n - 1))) ()) n = true := by
       apply pivotsOk_of
       intro j hj
       simp only
